@@ -20,6 +20,10 @@
    "opfs"   every layout of an EPUB package document (prefixed / default namespace, title first / last, dc
             elements with attributes, version 2 / 3) x 3 property values.
    "alts"   pictures' alternative texts: (format x name x title x description), each absent / empty / blank / text.
+   "members" archive members: (zip / tar / tgz / 7z) x member name form (plain, nested, dotted, unicode, absolute) x
+            archive path form; TLC checks the member-path law (Inv_Member).
+   "structs" heading structures of DOCX / ODT: every sequence of <= MaxStruct items over h1 h2 h3 paragraph empty table,
+            with and without pictures.
    "degens" degenerate-but-accepted inputs (no html part, no body, empty sheet, zero pages, ...) x every path form.
    "names"  naming attributes of the containers of units (sheet / page / slide / chapter), absent ... non-ASCII.
    "srcs"   where a picture's bytes come from: (format x first / middle / last picture x http / https / dangling /
@@ -34,7 +38,7 @@
             inverts ToUnits; each run is written into an RTF title and body.                     *)
 EXTENDS Iface
 
-CONSTANTS Mode, MaxDirs, MaxVal, MaxUnits, Full, Formats, PdfBytes
+CONSTANTS Mode, MaxDirs, MaxVal, MaxUnits, Full, Formats, PdfBytes, MaxStruct
 
 VARIABLE c
 vars == <<c>>
@@ -149,6 +153,24 @@ NcrRefs == {"hi", "lo", "pair", "beyond", "nul", "c1"}
 Ncrs == { [fmt |-> f, place |-> pl, ref |-> r] : f \in {"html", "mhtml"} \cap Formats,
                                                  pl \in {"title", "meta", "body", "alt", "cell"}, r \in NcrRefs }
 
+(* ---- archive members ---- *)
+\* member names: plain, nested, dotted folder and two extensions, unicode, absolute (tar -P / hand-written ZipInfo),
+\* absolute and nested; in a zip, tar, tar.gz or 7z archive; the archive read with each kind of path argument
+M(a, d, s, e) == [abs |-> a, dirs |-> d, stem |-> s, exts |-> e]
+MemberForms == << M(FALSE, <<>>, "s", <<"txt">>), M(FALSE, <<"d", "d">>, "s", <<"txt">>),
+                  M(FALSE, <<"x.y">>, "s", <<"gz", "txt">>), M(FALSE, <<"u">>, "u", <<"txt">>),
+                  M(TRUE, <<"d">>, "s", <<"txt">>), M(TRUE, <<"d", "u">>, "b", <<"UP", "txt">>) >>
+ArchivePathForms == {1, 2, 3, 4, 5, 6}       \* indices into Forms: None, relative, relative in missing folders, absolute, nx, unicode
+Members == { [arch |-> a, member |-> k, form |-> f] : a \in {"zip", "tar", "tgz", "7z"}, k \in DOMAIN MemberForms, f \in ArchivePathForms }
+
+(* ---- heading structures of the flow formats ---- *)
+\* every sequence of <= MaxStruct items over heading levels 1..3, body paragraph, empty paragraph, table -- including
+\* a trailing heading, trailing empty paragraphs, no level-1 heading, no text before the first heading -- with and
+\* without pictures (which the writers append after the body)
+StructItems == {"h1", "h2", "h3", "p", "e", "t"}
+Structs == { [fmt |-> f, items |-> q, pics |-> b] : f \in {"docx", "odt"} \cap Formats,
+                                                    q \in SeqsUpTo(StructItems, MaxStruct) \ {<<>>}, b \in BOOLEAN }
+
 (* ---- degenerate-but-accepted inputs: containers without the main part the extractor looks for ---- *)
 \* every one is run with every designated path form: the path clause holds for EVERY result
 DegenInputs == {"mhtml-nohtml", "mhtml-onlyimage", "eml-nobody", "eml-onlyattachment", "xlsx-emptysheet", "ods-emptysheet",
@@ -165,7 +187,10 @@ Names == { [fmt |-> f, which |-> w, name |-> k] : f \in {"ods", "odp", "odg", "x
                                                   w \in {"first", "all"}, k \in NameKinds }
 
 Init ==
-    CASE Mode = "degens" -> c \in { [kind |-> "degen", input |-> a.input, form |-> a.form, path |-> Forms[a.form]] : a \in Degens }
+    CASE Mode = "members" -> c \in { [kind |-> "member", arch |-> a.arch, member |-> MemberForms[a.member], mform |-> a.member,
+                                        path |-> Forms[a.form], form |-> a.form] : a \in Members }
+      [] Mode = "structs" -> c \in { [kind |-> "struct", x |-> a] : a \in Structs }
+      [] Mode = "degens" -> c \in { [kind |-> "degen", input |-> a.input, form |-> a.form, path |-> Forms[a.form]] : a \in Degens }
       [] Mode = "names" -> c \in { [kind |-> "name", x |-> a] : a \in Names }
       [] Mode = "srcs" -> c \in { [kind |-> "src", x |-> a] : a \in Srcs }
       [] Mode = "lens" -> c \in { [kind |-> "len", x |-> a] : a \in Lens }
@@ -194,6 +219,8 @@ Inv_NameOnly       == (c.kind = "path" /\ c.path # NoPath) =>
         Law_NameOnly(c.path, [c.path EXCEPT !.root = r, !.dirs = d, !.fexists = x[1], !.dexists = x[2]])
 Inv_FormsInUniverse == \A k \in DOMAIN Forms : Forms[k] = NoPath \/ PathWF(Forms[k])
 
+Inv_Member == c.kind = "member" =>
+    Law_Member(c.path, [k |-> "member", archseg |-> "a.zip!", dirs |-> c.member.dirs, stem |-> c.member.stem, exts |-> c.member.exts])
 Inv_ReportedUnchanged == c.kind = "opf" => Law_ReportedUnchanged(<<116, 233>>, c.layout.wrapper = "dc-metadata")
 Inv_DecodeWellFormed == c.kind = "units" => Utf8OK(DecodeUnits(c.units))
 Inv_DecodeInvertsToUnits == c.kind = "units" =>
